@@ -422,6 +422,11 @@ func storesTo(fn *ssa.Function, path string, deep bool) []*ssa.Store {
 // operands, phis, loads (to every store to the same access path in the enclosing function tree)
 // and calls (arguments and receiver).
 func dependsOn(v ssa.Value, pred func(ssa.Value) bool) bool {
+	return dependsOnBarrier(v, pred, nil)
+}
+
+// dependsOnBarrier is dependsOn that does not look behind values for which barrier is true.
+func dependsOnBarrier(v ssa.Value, pred func(ssa.Value) bool, barrier func(ssa.Value) bool) bool {
 	seen := map[ssa.Value]bool{}
 	var walk func(v ssa.Value, depth int) bool
 	walk = func(v ssa.Value, depth int) bool {
@@ -431,6 +436,9 @@ func dependsOn(v ssa.Value, pred func(ssa.Value) bool) bool {
 		seen[v] = true
 		if pred(v) {
 			return true
+		}
+		if barrier != nil && barrier(v) {
+			return false
 		}
 		switch x := v.(type) {
 		case *ssa.UnOp:
@@ -482,8 +490,18 @@ func dependsOn(v ssa.Value, pred func(ssa.Value) bool) bool {
 			}
 		}
 		if ph, ok := v.(*ssa.Phi); ok {
-			// control dependence on the branches that select among the incoming edges
+			// control dependence on the branches that select among the incoming edges (not for
+			// loop-header phis: every branch of the loop body would count)
+			loopHeader := false
 			for _, pred := range ph.Block().Preds {
+				if ph.Block().Dominates(pred) {
+					loopHeader = true
+				}
+			}
+			for _, pred := range ph.Block().Preds {
+				if loopHeader {
+					break
+				}
 				if ifi, ok := pred.Instrs[len(pred.Instrs)-1].(*ssa.If); ok && walk(ifi.Cond, depth+1) {
 					return true
 				}
